@@ -191,7 +191,8 @@ class Compare:
             if isinstance(a, (float, np.floating)) and isinstance(b, (float, np.floating)) and (float(a) == float(b) or (a != a and b != b)):
                 return
         if type(a) is not type(b):
-            self.bad(path, 'type %s became %s' % (type(a).__name__, type(b).__name__))
+            self.bad(path, '%s %s became %s %s' % (type(a).__module__ + '.' + type(a).__name__, repr(a)[:60],
+                                                  type(b).__module__ + '.' + type(b).__name__, repr(b)[:60]))
             return
         if isinstance(a, np.ma.MaskedArray):
             if self.pair(a, b, path, True):
@@ -539,7 +540,7 @@ def run_object(spec):
             sanity_walk(loaded, set(), so)
             out['sanity_n'] = so['n']
             out['sanity_bad'] = so['bad']
-            if spec.get('shape') and not flat:
+            if spec.get('shape') and not flat and method in spec.get('shape_methods', [method]):
                 out['shape'] = canon_pair(obj, loaded, spec.get('max_nodes', 1500))
         except Exception:
             out['runner_error'] = traceback.format_exc()[-1500:]
